@@ -333,6 +333,9 @@ def export_shapes(tier):
     add('x-eos-simulator-multi-spaces', eos=dict(mode='simulator', multi='spaces', cells=4), parts=['eos'])
     add('x-gens-basic', atm=0, generators=[dict(type='MASS', block='sym', name=' ge 1'), dict(type='HEAT', block=2, name=' ge 1', hg=None, fg=None),
                                             dict(type='COM1', block=2, name=' ge 1', hg=None, fg=None), dict(type='DELV', block=0, name=' ge 4')], parts=['generators'])
+    # (round 4) a rate table with the GX field left blank (read() gives gx None), as TOUGH2 files normally write table generators
+    add('x-gens-table-nogx', atm=0, generators=[dict(type='MASS', block=1, table=2, gx=None, ex=None, hg=None, fg=None), dict(type='MASS', block=2, hg=None, fg=None),
+                                                 dict(type='COM1', block=3, table=2, itab='1', gx=None, hg=None, fg=None)], parts=['generators'])
     add('x-json-whole', atm=1, eos=dict(mode='multi'), generators=[dict(type='MASS', block=3, gx=-2.5, hg=None, fg=None), dict(type='DELG', block='sym', fg=0., hg=0.)], parts=['json'])
     # the whole export with a non-default boundary threshold: rocks and boundaries must use the same one
     add('x-json-partition-smallatm', atm=2, volumes='sym', atmos_volume=1.e6, eos=dict(mode='multi'), parts=['json'])
@@ -402,6 +405,11 @@ def conv_shapes(tier):
     add('toT-MP', dir='toT', MP=True, c01=c01shape(AUT_SECS, [G_('com')], True), short=dict(block=[0]), filename='model.dat',
         mop={'10': False, '12': False, '22': False, '23': False, '24': False})       # MOP(14), (17), (20), (21) free
     add('toT-type-setter', dir='toT', via='type', c01=c01shape(AUT_SECS, [G_('lacking'), G_('kept', 2)], True), short=full, mop='quiet')
+    # (round 4) sections held in the AUTOUGH2-only extra-precision file and not echoed: nothing may stay designated for that file
+    add('toT-xprec', dir='toT', c01=c01shape(AUT_SECS, [G_('com', 1)], True), short=dict(block=[0]), mop='quiet',
+        xprec=dict(sections=['ROCKS', 'ELEME'], echo=False))
+    # (round 4) a LINEQ section whose solver type field is blank (read() stores no 'type' entry)
+    add('toT-lineq-notype', dir='toT', c01=c01shape(AUT_SECS, [G_('com')], True), short=dict(frequency=True), mop='quiet', lineq_type='absent')
     # --- TOUGH2 -> AUTOUGH2
     hist_obj = dict(block=[('blk', 0), ('blk', 2)], connection=[('con', 0)], generator=[('blk', 0)])
     hist_mixed = dict(block=[('name', ' zz 9'), ('blk', 1)], connection=[('name', [' a  1', ' zz 9']), ('con', 1)], generator=[('gen', 0), ('blk', 1), ('name', ' a  1')])
@@ -414,6 +422,10 @@ def conv_shapes(tier):
         history=dict(block=[('blk', 1)], generator=[('blk', 1), ('blk', 0)]), mop='quiet', solver_max=6, filename='m.dat')
     add('toA-type-setter', dir='toA', via='type', c01=c01shape(T2_SECS, [G_('com'), G_('lacking', 2)], False), history=hist_obj, mop='quiet',
         solver_max=6)
+    # (round 4) requests held as bare names although the grid has the block / connection (FOFT / COFT / GOFT read before ELEME / CONNE)
+    add('toA-names-existing', dir='toA', c01=c01shape(T2_SECS, [G_('com', 1), G_('com', 1, ' ge 2'), G_('com', 2)], False),
+        history=dict(block=[('name', ' a  1'), ('blk', 2), ('name', ' zz 9')], connection=[('name', [' a  1', ' b  2']), ('name', [' a  1', ' c  3'])],
+                     generator=[('name', ' b  2')]), mop='quiet', solver_max=6)
     if tier == 'thorough':
         add('toT-options-gen', dir='toT', c01=c01shape(nolineq, [G_('any')], True), short=dict(block=[1]), mop='free')
         add('toT-options-MP', dir='toT', MP=True, c01=c01shape(AUT_SECS, [G_('lacking')], True), short=dict(block=[0], connection=[0, 1]), mop='free', filename='model.dat')
@@ -432,6 +444,11 @@ def conv_shapes(tier):
             history=dict(block=[('name', ' a  1')], connection=[('name', [' a  1', ' b  2'])], generator=[('name', ' a  1')]), mop='quiet', mop21_max=6)
         add('toA-args', dir='toA', simulator_arg='MULKOM', eos_arg='EWAV', c01=c01shape(T2_SECS, [G_('any'), G_('any', 0)], False),
             history=dict(generator=[('gen', 1), ('gen', 0)]), mop='quiet', filename='Model', solver_max=6)
+        add('toT-xprec-echo', dir='toT', via='type', c01=c01shape(AUT_SECS, [G_('kept', 1)], True), short=dict(generator=[0]), mop='quiet',
+            xprec=dict(sections=['ROCKS', 'ELEME', 'CONNE', 'RPCAP', 'GENER'], echo=True))
+        add('toT-lineq-none', dir='toT', c01=c01shape(AUT_SECS, [G_('com')], True), short=dict(block=[0]), mop='free', lineq_type='none')
+        add('toA-solvr-notype', dir='toA', c01=c01shape(T2_SECS, [G_('com')], False), history=hist_obj, mop='quiet', mop21_max=6, solver_type='absent')
+        add('toA-solvr-none', dir='toA', c01=c01shape(T2_SECS, [G_('com')], False), history=hist_obj, mop='quiet', mop21_max=6, solver_type='none')
         add('toA-nohistory', dir='toA', c01=c01shape([s for s in T2_SECS if s not in ('FOFT', 'COFT', 'GOFT', 'MULTI')], [G_('lacking')], False),
             history=dict(), mop='quiet', solver_max=6)
         # the converted model survives the file round trip (C01's comparison), one cell of the option tree per shape
@@ -441,6 +458,8 @@ def conv_shapes(tier):
             short=dict(block=[0], connection=[0], frequency=True), mop={'10': True, '12': False, '22': True, '23': False, '24': False})
         add('toT-roundtrip-b', dir='toT', roundtrip=True, porosity=0.5, MP=True, c01=c01shape(small_a, [G_('kept')], True, nblocks=2, nrock=1),
             short=dict(generator=[0]), mop={'10': False, '12': True, '22': False, '23': True, '24': True, '14': True, '17': False, '20': True})
+        add('toT-roundtrip-xprec', dir='toT', roundtrip=True, porosity=0.25, c01=c01shape(small_a, [G_('com', 1)], True, nblocks=2, nrock=1),
+            short=dict(block=[1]), mop={'10': False, '12': False, '22': False, '23': False, '24': False}, xprec=dict(sections=['ROCKS', 'ELEME', 'GENER'], echo=False))
         add('toA-roundtrip-a', dir='toA', roundtrip=True, c01=c01shape(small_t, [G_('com', 1)], False, nblocks=2, nrock=1),
             history=dict(block=[('blk', 1)], connection=[('con', 0)], generator=[]), mop={'12': True, '22': True, '23': False, '24': True}, solver_max=6)
     return S
@@ -449,6 +468,11 @@ def conv_shapes(tier):
 def run(tier, seed, rep):
     _load()
     cs, xs = conv_shapes(tier), export_shapes(tier)
+    import os
+    only = [t for t in os.environ.get('C20_ONLY', '').split(',') if t]       # development aid: run the named shapes only
+    if only:
+        cs = [s for s in cs if s['tag'] in only]; xs = [s for s in xs if s['tag'] in only]
+        rep.bounds.append('PARTIAL RUN (C20_ONLY=%s): not evidence for the property' % ','.join(only))
     tasks = [(task_conv, dict(shape=s)) for s in cs] + [(task_export, dict(shape=s)) for s in xs]
     if seed:
         import random
@@ -457,14 +481,15 @@ def run(tier, seed, rep):
     rep.bounds += [
         'conversion: %d shapes (%s)' % (len(cs), ', '.join(s['tag'] for s in cs)),
         'conversion models: <= 3 blocks, 2 connections, 2 rock types, <= 4 generators (names duplicated within and across blocks), sections of the shape present, '
-        'short output with / without block, connection, generator, frequency entries, history lists holding objects, bare names or both; MP on / off; '
+        'short output with / without block, connection, generator, frequency entries, history lists holding objects, bare names (resolvable in the grid or not) or both; '
+        'LINEQ / SOLVR with a type, without the entry (blank field as read) or with None; ROCKS / ELEME / CONNE / RPCAP / GENER designated for the extra-precision file, echoed or not; MP on / off; '
         'conversion called directly (warn on / off, simulator / eos arguments) and through the type setter',
         'symbolic in every conversion shape: the 24 MOP digits (0..9), LINEQ type (0..99) / SOLVR type (0..9), every numeric field of the model (unconstrained reals / '
         'integers of the field width) including rock porosity and conductivity; generator type strings: 4 cells over [A-Z0-9 .] per generator of class "any" '
         '(the solver decides kept / converted / deleted), classes "lacking" / "kept" / "com" are the same cells under the stated class constraint',
         'shapes tagged mop=quiet keep the digits symbolic inside the region where the conversion rewrites none of them (MOP(12) != 2, MOP(22..24) = 0, MOP(10) != 2; '
         'MP: MOP(14,17,20) = 0): the option tree and the generator tree are explored in separate shapes, not as a product',
-        'round trip after conversion (thorough): 3 shapes, one stated cell of the option tree each, porosity concrete (0.25 / 0.5) so that the rescaled conductivity stays linear; '
+        'round trip after conversion (thorough): 4 shapes (one with non-echoed extra-precision sections), one stated cell of the option tree each, porosity concrete (0.25 / 0.5) so that the rescaled conductivity stays linear; '
         'values assumed to fit their fields as in C01',
         'export: %d shapes on RECT(2 x 1 x 2) (dx 100/150, dy 80, dz 10/20) built with the real mulgrid.rectangular + t2grid.fromgeo, atmosphere types 0/1/2, '
         'block orders layer_column / dmplex; symbolic: every block volume (atmosphere blocks: <= 0 or >= atmos_volume), rock properties, connection permeability directions (1..3), '
@@ -484,7 +509,11 @@ def run(tier, seed, rep):
         'in-memory file stub replaces open()/os.path.exists() (round-trip shapes only); printf contract and token-read model of vx/strs.py (round-trip shapes only)',
         'vx/strs.s_in: `symbolic string in dict/set of concrete keys` forks per key and pins the string to the matched key (so that dict[key] works afterwards)',
         'the expected model is computed by the oracle of harness/c20_model.py written from doc/source/t2data.rst and the warning texts; where the documentation leaves a value open '
-        '(LINEQ type for solvers other than 4 and 5; conductivity when both MULKOM options are set) every documented alternative is accepted',
+        '(LINEQ type for solvers other than 4 and 5; MOP(21) 4 or 5 for a LINEQ section without a solver type) every documented alternative is accepted; with MOP(10) = 2 and MOP(23) = 1 '
+        'both set the conductivity is rescaled once (the model uses the MULKOM formulation, whichever option says so): obligation to_TOUGH2/conductivity/rescaled-twice',
+        'a history request held as a bare name that the grid can resolve (FOFT / COFT / GOFT read before ELEME / CONNE, or set through the API) is a request for that block / connection: '
+        'convert_history_to_short documents that only items not present in the grid are discarded',
+        'a generator with a rate table and gx None (blank GX field) is an ordinary table generator for the export',
         'the section list is compared after update_sections(), which is the first thing write() does; SIMUL / LINEQ are additionally required to be gone (resp. present) right after the call',
         'a GOFT request is a request for a block (documentation of history_generator); a short-output generator request is mirrored by a request for its block and vice versa',
         'explicit "not supported" / "not detected" / "Unhandled" exceptions of the export are refusals, allowed only for the configurations the export documents as unsupported',
